@@ -42,7 +42,7 @@ Proof. intros; apply toks_of_cons. Qed.
 
 Ltac tk := repeat (rewrite ?toks_of_app, ?toks_of_bo, ?toks_of_sign, ?toks_of_evt, ?toks_of_xt, ?toks_of_rng, ?toks_of_aval, ?toks_of_sp', ?toks_of_nl, ?toks_of_kw, ?toks_of_pu, ?toks_of_ident, ?toks_of_num,
                            ?toks_of_unum, ?toks_of_qs, ?toks_of_fl, ?toks_of_sp, ?toks_of_tk, ?toks_of_nil; cbn [app]);
-           rewrite <- ?app_assoc; cbn [app].
+           unfold tok, str in *; repeat (rewrite <- app_assoc; cbn [app]).
 
 (* ---- single parser steps on a matching token ---- *)
 Lemma expect_punct_ok : forall c r, expect_punct c ((KPunct, [c]) :: r) = POk tt r.
@@ -129,7 +129,7 @@ Proof.
   intros t rest [Hn Hv]. split.
   - unfold w_value_table. tk. reflexivity.
   - unfold parse_value_table. rewrite expect_kind_ok. cbn [bind].
-    rewrite (value_descs_ok _ _ Hv (or_intror (ex_intro _ rest eq_refl))). cbn [bind].
+    rewrite value_descs_ok by (try exact Hv; right; eexists; reflexivity). cbn [bind].
     rewrite expect_punct_ok. cbn [bind]. destruct t; reflexivity.
 Qed.
 
@@ -263,12 +263,12 @@ Definition wf_env_var (e : env_var) : Prop :=
   expr_ident (ev_name e) = true /\ fin (ev_min e) = true /\ fin (ev_max e) = true /\ expr_string (ev_unit e) = true /\
   fin (ev_init e) = true /\ u32_ok (ev_id e) /\ ev_access e < 8 /\ ev_nodes e <> [] /\ idents_ok (ev_nodes e).
 
-Lemma p_access_ok : forall a r, a < 8 ->
-  exists s, nth_error access_names (N.to_nat a) = Some s /\ p_access ((KIdent, s) :: r) = POk a r.
+Lemma p_access_ok : forall a, a < 8 ->
+  exists s, nth_error access_names (N.to_nat a) = Some s /\ forall r, p_access ((KIdent, s) :: r) = POk a r.
 Proof.
-  intros a r Ha.
+  intros a Ha.
   assert (H : a = 0 \/ a = 1 \/ a = 2 \/ a = 3 \/ a = 4 \/ a = 5 \/ a = 6 \/ a = 7) by lia.
-  repeat (destruct H as [H|H]); subst; eexists; (split; [reflexivity|reflexivity]).
+  repeat (destruct H as [H|H]); subst; eexists; (split; [reflexivity|intros r; reflexivity]).
 Qed.
 
 Lemma parse_env_var_ok : forall e rest, wf_env_var e ->
@@ -278,7 +278,7 @@ Proof.
   destruct e as [name ty mn mx unit init id acc nodes]; cbn [ev_name ev_ty ev_min ev_max ev_unit ev_init ev_id ev_access ev_nodes] in *.
   destruct nodes as [|n0 nodes]; [congruence|].
   unfold w_env_var. cbn [ev_name ev_ty ev_min ev_max ev_unit ev_init ev_id ev_access ev_nodes].
-  destruct (p_access_ok acc (toks_of (w_comma_names (n0 :: nodes)) ++ (KPunct, [ch_semi]) :: rest) Ha) as [s [Hs Hp]]. rewrite Hs.
+  destruct (p_access_ok acc Ha) as [s [Hs Hp]]. rewrite Hs.
   eexists. split; [tk; reflexivity|].
   unfold parse_env_var. repeat pstep. rewrite (p_ev_type_ok ty). cbn [bind]. repeat pstep.
   rewrite Hp. cbn [bind]. unfold w_comma_names. tk. repeat pstep.
@@ -342,10 +342,12 @@ Lemma parse_comment_ok : forall c rest, wf_comment c ->
 Proof.
   intros c rest (Hr & Ht). destruct c as [ref text]; cbn [cm_ref cm_text] in *.
   unfold w_comment. cbn [cm_ref cm_text]. eexists. split; [tk; reflexivity|].
-  unfold parse_comment. destruct ref as [|n|id|id n|n]; cbn [w_obj_ref wf_ref] in *; tk; cbn [next fst snd];
-    try change (keyword_of kw_BU) with (Some KwNode); try change (keyword_of kw_BO) with (Some KwMessage);
-    try change (keyword_of kw_SG) with (Some KwSignal); try change (keyword_of kw_EV) with (Some KwEnvVar);
-    cbv iota; cbn [p_obj_ref_kw bind]; try destruct Hr as [Hr1 Hr2]; repeat pstep; reflexivity.
+  unfold parse_comment. destruct ref as [|n|id|id n|n]; cbn [w_obj_ref wf_ref] in *; tk; cbn [next fst snd].
+  - cbn [bind]. repeat pstep. reflexivity.
+  - change (keyword_of kw_BU) with (Some KwNode). cbv iota. cbn [p_obj_ref_kw bind]. repeat pstep. reflexivity.
+  - change (keyword_of kw_BO) with (Some KwMessage). cbv iota. cbn [p_obj_ref_kw bind]. repeat pstep. reflexivity.
+  - destruct Hr as [Hr1 Hr2]. change (keyword_of kw_SG) with (Some KwSignal). cbv iota. cbn [p_obj_ref_kw bind]. repeat pstep. reflexivity.
+  - change (keyword_of kw_EV) with (Some KwEnvVar). cbv iota. cbn [p_obj_ref_kw bind]. repeat pstep. reflexivity.
 Qed.
 
 (* ---- BA_DEF_ ---- *)
@@ -409,7 +411,7 @@ Proof.
   unfold parse_attribute. destruct kind; cbn [w_attr_kind]; tk; cbn [next fst snd];
     try change (keyword_of kw_BU) with (Some KwNode); try change (keyword_of kw_BO) with (Some KwMessage);
     try change (keyword_of kw_SG) with (Some KwSignal); try change (keyword_of kw_EV) with (Some KwEnvVar);
-    cbv iota; cbn [bind]; rewrite (attr_name_ok _ _ Hn); cbn [bind]; rewrite (p_attr_type_ok ty rest Ht); cbn [bind];
+    cbv iota; cbn [bind]; rewrite attr_name_ok by exact Hn; cbn [bind]; rewrite p_attr_type_ok by exact Ht; cbn [bind];
     repeat pstep; reflexivity.
 Qed.
 
@@ -471,7 +473,7 @@ Lemma parse_attr_default_ok : forall d rest, wf_attr_default d ->
 Proof.
   intros d rest (Hn & Hv). destruct d as [name v]; cbn [af_name af_value] in *.
   unfold w_attr_default. cbn [af_name af_value]. eexists. split; [tk; reflexivity|].
-  unfold parse_attr_default. rewrite (attr_name_ok _ _ Hn). cbn [bind]. rewrite (p_attr_val_ok v _ Hv). cbn [bind].
+  unfold parse_attr_default. rewrite attr_name_ok by exact Hn. cbn [bind]. rewrite p_attr_val_ok by exact Hv. cbn [bind].
   repeat pstep. reflexivity.
 Qed.
 
@@ -479,8 +481,8 @@ Qed.
 Definition wf_attr_value (v : attr_value) : Prop :=
   expr_string (av_name v) = true /\ wf_ref (av_ref v) /\ wf_val (av_value v).
 
-Lemma attr_val_first : forall v, wf_val v -> exists t, tok1 (w_attr_val fmt hex v) = [t] /\ (kind_is KString t || kind_is KNumber t) = true.
-Proof. intros v _. destruct v; eexists; (split; [reflexivity|reflexivity]). Qed.
+Lemma attr_val_first : forall v r, exists t, tok1 (w_attr_val fmt hex v) ++ r = t :: r /\ (kind_is KString t || kind_is KNumber t) = true.
+Proof. intros v r. destruct v; eexists; (split; [reflexivity|reflexivity]). Qed.
 
 Lemma parse_attr_value_ok : forall v rest, wf_attr_value v ->
   exists T, toks_of (w_attr_value fmt hex v) ++ rest = (KKeyword, kw_BA) :: T /\
@@ -490,16 +492,16 @@ Proof.
   unfold w_attr_value. cbn [av_name av_ref av_value]. eexists. split; [tk; reflexivity|].
   unfold parse_attr_value. pstep.
   destruct ref as [|n|id|id n|n]; cbn [w_obj_ref wf_ref] in *; tk.
-  - destruct (attr_val_first val Hv) as [t [Ht Hk]]. rewrite Ht at 1. cbn [app next]. rewrite Hk. rewrite <- Ht.
-    cbn [bind]. rewrite (p_attr_val_ok val _ Hv). cbn [bind]. repeat pstep. reflexivity.
+  - match goal with |- context [tok1 (w_attr_val fmt hex val) ++ ?r] => destruct (attr_val_first val r) as [t [Ht Hk]] end.
+    unfold tok, str in *. rewrite Ht. cbn [next]. rewrite Hk. cbn [bind]. rewrite <- Ht. rewrite p_attr_val_ok by exact Hv. cbn [bind]. repeat pstep. reflexivity.
   - cbn [next fst snd]. change (keyword_of kw_BU) with (Some KwNode). cbn [kind_is fst tkind_eqb tkind_index N.eqb Pos.eqb orb]. cbv iota.
-    cbn [p_obj_ref_kw bind]. repeat pstep. rewrite (p_attr_val_ok val _ Hv). cbn [bind]. repeat pstep. reflexivity.
+    cbn [p_obj_ref_kw bind]. repeat pstep. rewrite p_attr_val_ok by exact Hv. cbn [bind]. repeat pstep. reflexivity.
   - cbn [next fst snd]. change (keyword_of kw_BO) with (Some KwMessage). cbn [kind_is fst tkind_eqb tkind_index N.eqb Pos.eqb orb]. cbv iota.
-    cbn [p_obj_ref_kw bind]. repeat pstep. rewrite (p_attr_val_ok val _ Hv). cbn [bind]. repeat pstep. reflexivity.
+    cbn [p_obj_ref_kw bind]. repeat pstep. rewrite p_attr_val_ok by exact Hv. cbn [bind]. repeat pstep. reflexivity.
   - destruct Hr as [Hr1 Hr2]. cbn [next fst snd]. change (keyword_of kw_SG) with (Some KwSignal). cbn [kind_is fst tkind_eqb tkind_index N.eqb Pos.eqb orb]. cbv iota.
-    cbn [p_obj_ref_kw bind]. repeat pstep. rewrite (p_attr_val_ok val _ Hv). cbn [bind]. repeat pstep. reflexivity.
+    cbn [p_obj_ref_kw bind]. repeat pstep. rewrite p_attr_val_ok by exact Hv. cbn [bind]. repeat pstep. reflexivity.
   - cbn [next fst snd]. change (keyword_of kw_EV) with (Some KwEnvVar). cbn [kind_is fst tkind_eqb tkind_index N.eqb Pos.eqb orb]. cbv iota.
-    cbn [p_obj_ref_kw bind]. repeat pstep. rewrite (p_attr_val_ok val _ Hv). cbn [bind]. repeat pstep. reflexivity.
+    cbn [p_obj_ref_kw bind]. repeat pstep. rewrite p_attr_val_ok by exact Hv. cbn [bind]. repeat pstep. reflexivity.
 Qed.
 
 (* ---- VAL_ ---- *)
@@ -512,8 +514,9 @@ Lemma parse_value_encoding_ok : forall v rest, wf_value_encoding v ->
 Proof.
   intros v rest (Hr & Hv). destruct v as [ref vals]; cbn [ve_ref ve_values] in *.
   unfold w_value_encoding. cbn [ve_ref ve_values]. eexists. split; [tk; reflexivity|].
-  unfold parse_value_encoding. destruct ref as [id n|n]; cbn [w_enc_ref]; tk; cbn [next fst]; try destruct Hr as [Hr1 Hr2];
-    repeat pstep; rewrite (value_descs_ok _ _ Hv (or_intror (ex_intro _ rest eq_refl))); cbn [bind]; repeat pstep; reflexivity.
+  unfold parse_value_encoding. destruct ref as [id n|n]; cbn [w_enc_ref]; tk; cbn [next fst].
+  - destruct Hr as [Hr1 Hr2]. repeat pstep. rewrite value_descs_ok by (try exact Hv; right; eexists; reflexivity); cbn [bind]; repeat pstep; reflexivity.
+  - repeat pstep. rewrite value_descs_ok by (try exact Hv; right; eexists; reflexivity); cbn [bind]; repeat pstep; reflexivity.
 Qed.
 
 (* ---- SIG_GROUP_ ---- *)
@@ -560,7 +563,7 @@ Proof.
   - cbn [flat_map toks_of app]. destruct rest as [|t r]; [reflexivity|]. cbn [comma_ranges]. cbn in Hrest. rewrite Hrest. reflexivity.
   - inversion Hwf as [|x' l' Hx Hl]; subst. cbn [flat_map]. tk. cbn [comma_ranges].
     change (is_punct ch_comma (KPunct, [ch_comma])) with true. cbv iota.
-    rewrite (p_range_ok x _ Hx). unfold tok1 at 1. destruct x as [a b]. unfold w_range at 1. cbn [fst snd]. tk.
+    rewrite p_range_ok by exact Hx. unfold tok1 at 1. destruct x as [a b]. unfold w_range at 1. cbn [fst snd]. tk.
     rewrite (IH rest Hl Hrest). reflexivity.
 Qed.
 
@@ -570,8 +573,8 @@ Proof.
   intros x rest (Hid & H1 & H2 & Hne & Hr). destruct x as [id muxed muxor ranges]; cbn [xm_id xm_muxed xm_muxor xm_ranges] in *.
   destruct ranges as [|r0 ranges]; [congruence|]. inversion Hr as [|r0' rs' Hr0 Hrs]; subst.
   unfold w_ext_mux. cbn [xm_id xm_muxed xm_muxor xm_ranges]. eexists. split; [unfold w_ranges; tk; reflexivity|].
-  unfold parse_ext_mux. repeat pstep. rewrite (p_range_ok r0 _ Hr0). cbn [bind].
-  rewrite (comma_ranges_ok ranges _ Hrs) by reflexivity. cbn [bind]. repeat pstep. reflexivity.
+  unfold parse_ext_mux. repeat pstep. rewrite p_range_ok by exact Hr0. cbn [bind].
+  rewrite comma_ranges_ok by (try exact Hrs; reflexivity). cbn [bind]. repeat pstep. reflexivity.
 Qed.
 
 End Sections.
